@@ -297,6 +297,7 @@ class Contract:
     self.events = events or {}         # name -> fn(a, events) -> z3 Bool / bool   (ghost event clauses)
     self.frame_attrs = frame_attrs
     self.consumes = tuple(consumes)   # array parameters the function writes in place: every caller must own them
+    self.on_raise = {}                # name -> fn(a, events, exception class name) -> Bool: clauses about exceptional exits
 
   # ---- modular use at a call site -------------------------------------------------------------------
   def apply(self, ex, f, args, kwargs, p, node, bound):
@@ -594,6 +595,10 @@ def body_obligations(prog, contract, lib=None, contracts=None, config=None, loop
       elif oc[0] == 'raise':
         exc = oc[1].cls
         seen_outcomes.add(exc)
+        for name, cl in contract.on_raise.items():
+          g = cl(a, q.events, exc)
+          if g is not None:
+            obls.append(Obligation('%s/on-raise.%s' % (tag, name), 'events', list(q.pc), _b(g), dict(exc=exc, where=oc[2] if len(oc) > 2 else '')))
         declared = None
         for e2 in contract.raises:
           if e2 == exc:
